@@ -279,7 +279,7 @@ def episode(ctx, case, nsteps=0):
     first_bits = {}       # value-keyed routes: bits of the first construction of that value in this episode
     rkind, bits, rcls = case['root']
     tok = '0b' + bits
-    with util.options(lsb0=False):
+    with util.options(lsb0=bool(case.get('lsb0'))):     # independence is not a matter of bit numbering: same oracle in both modes
         def reg(o, kind, route, edge_src=None):
             e = {'obj': o, 'kind': kind, 'route': route, 'exp': None, 'edge': None,
                  'immutable': kind == 'bits' and type(o) in (Bits, ConstBitStream), 'hash': None}
@@ -348,6 +348,8 @@ def episode(ctx, case, nsteps=0):
                     continue
                 if route in MUTABLE_TARGET_ONLY and tcn not in util.MUTABLE:
                     continue
+                if case.get('lsb0') and route.rpartition(':')[2] in ('ue', 'se', 'uie', 'sie'):
+                    continue            # documented: exponential-Golomb codes are not available in lsb0 mode
                 if route == 'prop-bits':
                     def f():
                         o = tc()
@@ -525,6 +527,8 @@ def pairs(ctx):
                                      ['derive', route, 0, tcn]]
                         case = {'root': [rk, '0110100110010110', sc], 'steps': steps}
                         ctx.run_case(lambda c, k: episode(c, k), case)
+                        if rk == 'bin':
+                            ctx.run_case(lambda c, k: episode(c, k), dict(case, steps=[list(x) for x in steps], lsb0=True))
     for rk, routes_ in EXT_ROUTES.items():
         for route in routes_:
             for tcn in TC:
@@ -551,7 +555,7 @@ def run(ctx):
     for i in range(n):
         rk = ctx.rng.choice(['str', 'str', 'bin', 'bytearray', 'memoryview', 'bitarray', 'array', 'BytesIO'])
         bits = rb(ctx.rng, ctx.rng.choice([8, 16, 24, 64]))
-        case = {'root': [rk, bits, ctx.rng.choice(TC)], 'steps': []}
+        case = {'root': [rk, bits, ctx.rng.choice(TC)], 'steps': [], 'lsb0': i % 4 == 3}
         if rk not in ('str', 'bin'):
             case['ext_route'] = ctx.rng.choice(list(EXT_ROUTES[rk]))
         ns = ctx.rng.randint(10, 20) if ctx.quick else ctx.rng.randint(10, 40)
